@@ -52,6 +52,27 @@ def gen_cases(ctx, rng):
         cases.append({"dir": rng.choice(["upstream", "downstream"]), "chain": chain, "src": srcs[0], "srcs": srcs, "links": nl,
                       "horizon": 3600 * 1000 * L.MS, "seed": 4000 + i})
         stats["shared_by_connections"] += 1
+    # slow_close interrupted (its own update, another toxic added behind it or removed, a reset) while it is parked handing a chunk to a
+    # receiver that is slow: it passes data through unchanged - the chunk in its hand included
+    stats["interrupted_under_back_pressure"] = 0
+    for i in range(16 if ctx.tier == "quick" else 400):
+        d = rng.choice([10, 300])
+        slow = rng.choice([200, 700, 1500]) * L.MS
+        chain = [L.tx("slow_close", name="c", delay=d)] + ([L.tx("noop", name="m")] if rng.chance(1, 2) else [])
+        src, t = [], 1 * L.MS
+        for _ in range(rng.range(4, 9)):
+            src.append({"at": t, "n": rng.range(1, 900)})
+            t += rng.choice([0, 1, 50]) * L.MS + rng.range(0, 999)
+        at = rng.range(1, 6) * slow // 2 + rng.range(1, 99) * L.MS + 333
+        how = rng.choice(["update_self", "add_behind", "remove_self", "reset"] + (["remove_nb"] if len(chain) == 2 else []))
+        ops = [{"update_self": {"at": at, "op": "update", "name": "c", "body": '{"attributes": {"delay": %d}}' % d},
+                "add_behind": {"at": at, "op": "add", "toxic": L.tx("noop", name="z")},
+                "remove_self": {"at": at, "op": "remove", "name": "c"}, "reset": {"at": at, "op": "reset"},
+                "remove_nb": {"at": at, "op": "remove", "name": "m"}}[how]]
+        src.append({"at": max(t, at) + 20 * slow, "close": True})
+        cases.append({"dir": rng.choice(["upstream", "downstream"]), "chain": chain, "src": src, "ops": ops, "sink_delay": [slow],
+                      "horizon": 3600 * 1000 * L.MS, "seed": 6000 + i, "interrupted": True})
+        stats["interrupted_under_back_pressure"] += 1
     return cases, stats
 
 
@@ -74,6 +95,8 @@ def oracle(case, res):
     d = sc[0]["attributes"]["delay"]
     if not res["prefix_ok"] or res["total"] != sent:
         return "slow_close changed the data (%d of %d bytes)" % (res["total"], sent)
+    if case.get("interrupted"):
+        return None                  # reconfigured under back-pressure: judged on the data; the timing is compared with the model
     ws = res["writes"] or []
     writes = [e for e in case["src"] if not e.get("close")]
     if len(ws) == len(writes):
